@@ -15,40 +15,58 @@ def rule_print_gate(check):
     prog = check.prog
     sites = [(f, n) for f, n, c in prog.call_sites() if hir.is_call(n) and c["name"] == "print" and "Compiler" in c["path"] and not f.rec.get("gen")]
     check.floor(R, "Compiler::print call sites", len(sites), 1)
+    from .. import boolform as BF
+
+    MOD, NOT, CAN = (BF.atom("is:Status::" + x) for x in ("Modified", "NotModified", "Cancelled"))
+
+    def knows(f_, node, goal, extra=()):
+        prem = S.status_premises(prog, f_, list(extra) + f_.conds_at(node))
+        return BF.entails(prem, goal, exhaustive=S.STATUS_EXH)
+
     for f, n in sites:
         ok_fn = f.name == "transform_js"
-        atoms = gate.atoms_at(f, n)
-        gated = gate.has_variant_gate(atoms, "Status::Modified", ".status") or gate.has_eq_gate(atoms, ".status", "Status::Modified")
-        check.expect(ok_fn and gated, R, "%s/%s" % (R, f.name), hir.loc(n), "print under status == Modified", "Compiler::print in %s is not guarded by the final status being Modified" % f.name)
+        check.expect(ok_fn and knows(f, n, MOD), R, "%s/%s" % (R, f.name), hir.loc(n), "print only where the final status is known to be Modified", "Compiler::print in %s is not guarded by the final status being Modified" % f.name)
     f = prog.fn("rewriter::transform_js")
-    # the arms of the final match
-    arms = {}
-    for m in hir.walk(f.body):
-        if m.get("k") == "Match" and (hir.place(m["scrut"]) or "").endswith(".status"):
-            for a in m["arms"]:
-                v = hir.pat_variant(a["pat"])
-                arms[v.split("::")[-1] if isinstance(v, str) else str(v)] = a
-    check.expect(set(arms) == {"Modified", "NotModified", "Cancelled"}, R, R + "/arms", hir.loc(f.rec), "final match has arms %s" % sorted(arms), "transform_js final match arms are %s" % sorted(arms))
-    if "NotModified" in arms:
-        lits = [n for n in hir.walk(arms["NotModified"]["body"]) if n.get("k") == "Struct" and (n["res"].get("path") or "").endswith("RewrittenOutput")]
-        ok = len(lits) == 1
+    # what transform_js hands back, wherever it is built (the function itself or a crate constructor)
+    outs = []
+    for g in prog.flat(f, 1):
+        for n in hir.walk(g.body):
+            if n.get("k") == "Struct" and (n["res"].get("path") or "").endswith("RewrittenOutput"):
+                if g is f:
+                    outs.append((n, f, n, f))
+                else:
+                    for cn in hir.calls_in(f.body):
+                        if prog.resolve_local(cn) is g:
+                            outs.append((n, f, cn, g))
+    check.floor(R, "results built by transform_js", len(outs), 2)
+    pvp = Prov(prog)
+    n_empty = 0
+    for lit, f_, site, owner in outs:
+        flds = {x["name"]: hir.peel(x["e"]) for x in lit["fields"]}
+        code = flds.get("code", {})
+        printed = any(r[0] == "call" and r[1].split("::")[-1] == "print" for r, p_ in pvp.origins(owner, code)) or any(c["t"] == "closure" for c in f_.conds_at(site))
+        if printed:
+            check.expect(knows(f_, site, MOD), R, R + "/printed-result", hir.loc(site), "the printed result is returned only for Modified", "a printed result is returned on a path where the status is not known to be Modified")
+            continue
+        n_empty += 1
         detail = []
-        if ok:
-            flds = {x["name"]: hir.peel(x["e"]) for x in lits[0]["fields"]}
-            for nm in ("code", "source_map"):
-                e = flds.get(nm, {})
-                empty = (hir.is_call(e) and hir.callee_name(e) in ("default", "new") and "String" in (e["callee"]["path"] + e.get("ty", ""))) or hir.lit_value(e) == ""
-                ok = ok and empty
-                detail.append("%s=%s" % (nm, "empty" if empty else hir.describe(e)))
-            osm = flds.get("original_source_map", {})
-            nones = [x for x in hir.walk(osm) if x.get("k") == "Path" and (x["res"].get("ctor_path") or "").split("::")[-1] == "None"]
-            ok = ok and osm.get("k") == "Struct" and len(nones) == 2
-            ts = hir.peel_transparent(flds.get("transform_status", {}))
-        check.expect(ok, R, R + "/not-modified-empty", hir.loc(arms["NotModified"]["body"]), "NotModified: %s, no original map" % ", ".join(detail), "NotModified result is not empty: %s" % ", ".join(detail))
-    if "Cancelled" in arms:
-        body = hir.peel(arms["Cancelled"]["body"])
-        is_err = body.get("k") == "Call" and (hir.peel(body["f"]).get("res", {}).get("ctor_path") or "").split("::")[-1] == "Err"
-        check.expect(is_err, R, R + "/cancelled-err", hir.loc(body), "Cancelled returns Err", "Cancelled does not return Err")
+        ok = knows(f_, site, NOT)
+        for nm in ("code", "source_map"):
+            e = flds.get(nm, {})
+            empty = (hir.is_call(e) and hir.callee_name(e) in ("default", "new") and "String" in (e["callee"]["path"] + e.get("ty", ""))) or hir.lit_value(e) == ""
+            ok = ok and empty
+            detail.append("%s=%s" % (nm, "empty" if empty else hir.describe(e)))
+        osm = flds.get("original_source_map", {})
+        nones = [x for x in hir.walk(osm) if x.get("k") == "Path" and (x["res"].get("ctor_path") or "").split("::")[-1] == "None"]
+        no_map = (osm.get("k") == "Struct" and len(nones) == 2) or (hir.is_call(osm) and hir.callee_name(osm) == "default")
+        ok = ok and no_map
+        check.expect(ok, R, R + "/not-modified-empty", hir.loc(site), "NotModified: %s, no original map" % ", ".join(detail), "the non-printed result is not empty or not confined to NotModified: %s%s" % (", ".join(detail), "" if no_map else ", original map present"))
+    check.expect(n_empty >= 1, R, R + "/arms", hir.loc(f.rec), "transform_js has a printed (Modified) and an empty (NotModified) result", "transform_js builds no empty result for NotModified")
+    # Cancelled is an error: some Err(..) value is produced where the status is known to be Cancelled,
+    # and the two results above exclude it (they imply Modified / NotModified)
+    errs = [x for x in hir.walk(f.body) if x.get("k") == "Call" and (hir.peel(x["f"]).get("res", {}).get("ctor_path") or "").split("::")[-1] == "Err"]
+    ok = any(knows(f, x, CAN) for x in errs)
+    check.expect(ok, R, R + "/cancelled-err", hir.loc(errs[0]) if errs else hir.loc(f.rec), "Cancelled returns Err", "Cancelled does not return Err")
 
 
 def rule_prologue_trailer(check):
@@ -147,7 +165,7 @@ def rule_metrics_present(check):
     check.rule(R, "the JS hand-back keys on metrics.status, so every successful rewrite must carry metrics: transform_js always returns Some(transform_status), and get_metrics maps Some(status) to Some(Metrics) unconditionally (None only for None)")
     prog = check.prog
     t = prog.fn("rewriter::transform_js")
-    lits = [n for n in hir.walk(t.body) if n.get("k") == "Struct" and (n["res"].get("path") or "").endswith("RewrittenOutput")]
+    lits = [n for g_ in prog.flat(t, 1) for n in hir.walk(g_.body) if n.get("k") == "Struct" and (n["res"].get("path") or "").endswith("RewrittenOutput")]
     check.floor(R, "RewrittenOutput constructions in transform_js", len(lits), 2)
     for n in lits:
         e = [hir.peel(x["e"]) for x in n["fields"] if x["name"] == "transform_status"][0]
